@@ -175,8 +175,23 @@ impl Sys {
                     }
                     self.unacked[*k] += 1;
                 }
-                // the admission rule, judged when the store is exactly at/over capacity with nothing in flight
-                if inflight_before == 0 && held_before.len() >= self.capacity && !held_before.contains(k) {
+                // a put of a record that is already held takes no extra room: nothing else may leave (evictions are for
+                // accepting a record the node does not yet hold)
+                if inflight_before == 0 && held_before.contains(k) && held_after != held_before {
+                    fails.push(Fail::new(
+                        "eviction-only-for-new-records",
+                        if held_before.len() >= self.capacity { "update-of-held-record-at-capacity" } else { "update-of-held-record" },
+                        format!("putting k{k}, which is already held, changed the held set {held_before:?} -> {held_after:?} (result {res:?})"),
+                    ));
+                }
+                // a put that is answered Ok without any write being started (the same bytes are already on their way or
+                // in the read cache) is a no-op: it must not change what is held
+                let noop = res.is_ok() && !spawned_write;
+                if noop && held_after != held_before {
+                    fails.push(Fail::new("duplicate-put-changes-nothing", self.trigger(), format!("putting k{k} again with the same bytes started no write, yet the held set changed {held_before:?} -> {held_after:?}")));
+                }
+                // the admission rule, judged whenever the acknowledged records fill the store (with or without writes in flight)
+                if !noop && held_before.len() >= self.capacity && !held_before.contains(k) {
                     let farthest = *held_before.iter().max().unwrap();
                     if *k < farthest {
                         match &res {
